@@ -2,10 +2,11 @@
 //  * every request is recorded (size, in order) and counted (live bytes, peak live bytes);
 //  * requests below C09_BIG are served by malloc (so ASan still sees overruns);
 //  * requests of C09_BIG bytes or more are served *lazily*: a virtual range of the requested size is reserved and
-//    every C09_CHUNK-sized piece of it is a MAP_SHARED mapping of the same small memfd, so a declared 1.5 GiB
-//    dictionary (or a 12 GiB match-finder tree) costs C09_CHUNK bytes of RAM even when liblzma memzero()s it.
-//    (Only the first C09_CHUNK bytes of such a buffer hold independent data; harness runs keep real payloads far
-//    smaller than that.)
+//    every C09_CHUNK-sized piece of it is a MAP_SHARED mapping of one small memfd that belongs to this allocation
+//    alone, so a declared 1.5 GiB dictionary (or a 12 GiB match-finder tree) costs at most C09_CHUNK bytes of RAM even
+//    when liblzma memzero()s it. Only the first C09_CHUNK bytes of such a buffer hold independent data: harness runs
+//    that really code data keep every buffer they use below C09_BIG or touch only its first few KiB. Different
+//    allocations never share memory (worker threads of the threaded decoder own one dictionary each).
 //  * optional refusal: requests larger than `refuse_above` are recorded and answered with NULL.
 #ifndef VERIF_C09_ALLOC_H
 #define VERIF_C09_ALLOC_H
@@ -21,8 +22,8 @@
 #include <unistd.h>
 #include "lzma.h"
 
-#define C09_BIG   ((size_t)4 << 20)
-#define C09_CHUNK ((size_t)4 << 20)
+#define C09_BIG   ((size_t)16 << 20)
+#define C09_CHUNK ((size_t)16 << 20)
 #define C09_HDR   64
 #define C09_MAGIC_MALLOC UINT64_C(0xC09A110C00000001)
 #define C09_MAGIC_MAPPED UINT64_C(0xC09A110C00000002)
@@ -42,18 +43,14 @@ typedef struct {
 	bool bad_free;          // free of a pointer that is not ours
 } c09_counter;
 
-static int c09_memfd = -1;
-
-static int c09_get_memfd(void)
+static int c09_new_memfd(void)
 {
-	if (c09_memfd < 0) {
-		c09_memfd = memfd_create("c09-alias", 0);
-		if (c09_memfd < 0 || ftruncate(c09_memfd, (off_t)C09_CHUNK) != 0) {
-			perror("memfd");
-			exit(3);
-		}
+	int fd = memfd_create("c09-alias", 0);
+	if (fd < 0 || ftruncate(fd, (off_t)C09_CHUNK) != 0) {
+		perror("memfd");
+		exit(3);
 	}
-	return c09_memfd;
+	return fd;
 }
 
 static void *c09_map_big(size_t size)
@@ -69,14 +66,16 @@ static void *c09_map_big(size_t size)
 		munmap(base, total);
 		return NULL;
 	}
-	int fd = c09_get_memfd();
+	int fd = c09_new_memfd();
 	for (size_t off = 0; off < body; off += C09_CHUNK) {
 		size_t n = body - off < C09_CHUNK ? body - off : C09_CHUNK;
 		if (mmap(base + page + off, n, PROT_READ | PROT_WRITE, MAP_SHARED | MAP_FIXED, fd, 0) == MAP_FAILED) {
+			close(fd);
 			munmap(base, total);
 			return NULL;
 		}
 	}
+	close(fd);      // the mappings keep the memory alive until munmap()
 	uint64_t *h = (uint64_t *)(base + page - C09_HDR);
 	h[0] = C09_MAGIC_MAPPED;
 	h[1] = size;
